@@ -51,6 +51,21 @@ class C18(object):
             if kind == 'connected' and n == 4 and rng.random() < 0.5:
                 kind = 'profile'
             c['kind'] = kind
+            if kind == 'connected' and rng.random() < 0.35:
+                # three independent bits with a rare joint outcome (between 1e-6 and 1e-4): every connected information
+                # from order 2 on is 0, and the rare outcome must survive the optimiser's cut-off at 1e-6
+                qs = [Fraction(45, 1000), Fraction(45, 1000), Fraction(rng.choice([45, 30, 400]), 1000)]
+                outs3 = [list(o) for o in itertools.product([0, 1], repeat=3)]
+                pm3 = []
+                for o in outs3:
+                    p_ = Fraction(1)
+                    for b_, q_ in zip(o, qs):
+                        p_ *= q_ if b_ else 1 - q_
+                    pm3.append(p_)
+                c.update({'n': 3, 'outs': outs3, 'pmf': [str(p_) for p_ in pm3], 'alphabets': [[0, 1]] * 3, 'space': None,
+                          'sparse': True, 'trim': True, 'style': 'rare-outcome', 'rare': True,
+                          'names': list('XYZ') if c['names'] else None})
+                n = 3
             ng = rng.randint(1, 3)
             c['groups'] = [sorted(rng.sample(range(n), rng.randint(1, min(2, n)))) for _ in range(ng)]
             c['crvs'] = sorted(rng.sample(range(n), rng.randint(0, n - 1)))
@@ -169,6 +184,18 @@ class C18(object):
         mv = bits2f(drv.call('combf', ['query', n, groups, crvs, ftab]))
         if abs(val - mv) > 1e-9:
             r.mismatch = 'query %s | %s: impl %r model %r' % (groups, crvs, val, mv)
+        # further queries on the SAME object over the same variables, grouped differently, and the first one again
+        union = sorted(set(i for g in groups for i in g))
+        regroupings = [[union], [[i] for i in union], groups]
+        for g2 in regroupings:
+            if r.oracle_fail:
+                break
+            item2 = (tuple(tuple(self.var(case, i) for i in g) for g in g2), tuple(self.var(case, i) for i in crvs))
+            v2 = sp[item2]
+            ref2 = self.coinfo(H, g2, crvs)
+            if abs(v2 - ref2) > 1e-9:
+                r.oracle_fail = ('after the query %s | %s on the same partition object, partition[%s | %s] = %r, the '
+                                 'conditional co-information is %r' % (groups, crvs, g2, crvs, v2, ref2))
         # the model's query combination equals its co-information combination (exact)
         a = drv.call('comb', ['query', n, groups, crvs])[0]
         b = drv.call('comb', ['coinformation', 0, groups, crvs])[0]
@@ -238,7 +265,7 @@ class C18(object):
         tc = sum(H([i]) for i in range(n)) - H(range(n))
         if sorted(prof) != list(range(1, n + 1)):
             r.oracle_fail = 'connected informations orders %s' % sorted(prof)
-        elif any(v < -2e-3 for v in prof.values()):
+        elif any(v < (-3e-4 if case.get('rare') else -2e-3) for v in prof.values()):
             r.oracle_fail = 'a connected information is negative: %s' % prof
         elif abs(sum(v for k, v in prof.items() if k >= 2) - tc) > 2e-3:
             r.oracle_fail = 'connected informations from order 2 sum to %r, total correlation is %r' % (
